@@ -399,6 +399,14 @@ static int recomp_record_fields (hawk_rtx_t* rtx, hawk_oow_t lv, const hawk_oocs
 		 * number of fields that the current record can hold,
 		 * the field spaces are resized */
 
+		if (max > HAWK_TYPE_MAX(hawk_oow_t) / HAWK_SIZEOF(*rtx->inrec.flds))
+		{
+			/* the size in bytes would wrap around. a wrapped size of 0 makes the
+			 * allocator release the table and return a null pointer */
+			hawk_rtx_seterrnum (rtx, HAWK_NULL, HAWK_ENOMEM);
+			return -1;
+		}
+
 		tmp = hawk_rtx_reallocmem(rtx, rtx->inrec.flds, HAWK_SIZEOF(*rtx->inrec.flds) * max);
 		if (HAWK_UNLIKELY(!tmp)) return -1;
 
